@@ -18,6 +18,7 @@ from . import oracle, ring
 from .ring import LP, co
 
 SYM = False  # object-array creation only while a symbolic run is active
+PI_ATOM = True  # np.pi is the transcendental atom pi while a symbolic run is active
 INVENTORY: set = set()  # names actually used through an override in this run (evidence)
 
 
@@ -202,27 +203,39 @@ def _linalg_solve(A, b):
     return _np.einsum("...ij,...jk->...ik", iA, b)
 
 
-def _sqrt(x, *a, **k):
-    if not _isobj(x):
-        return _np.sqrt(x, *a, **k)
-    if isinstance(x, LP):
-        return x.sqrt()
-    out = _np.empty(x.shape, dtype=object)
-    for i in _np.ndindex(*x.shape):
-        out[i] = co(x[i]).sqrt()
+def _store(res, out):
+    """honour numpy's out= aliasing semantics"""
+    if out is None:
+        return res
+    if isinstance(out, tuple):
+        out = out[0]
+    out[...] = res
     return out
 
 
+def _sqrt(x, *a, out=None, **k):
+    if not _isobj(x):
+        return _np.sqrt(x, *a, out=out, **k)
+    if isinstance(x, LP):
+        return x.sqrt()
+    x = _np.asarray(x, dtype=object)
+    res = _np.empty(x.shape, dtype=object)
+    for i in _np.ndindex(*x.shape):
+        res[i] = co(x[i]).sqrt()
+    return _store(res, out)
+
+
 def _elementwise(method, real):
-    def f(x, *a, **k):
+    def f(x, *a, out=None, **k):
         if not _isobj(x):
-            return real(x, *a, **k)
+            return real(x, *a, out=out, **k)
         if isinstance(x, LP):
             return getattr(x, method)()
-        out = _np.empty(x.shape, dtype=object)
+        x = _np.asarray(x, dtype=object)
+        res = _np.empty(x.shape, dtype=object)
         for i in _np.ndindex(*x.shape):
-            out[i] = getattr(co(x[i]), method)()
-        return out
+            res[i] = getattr(co(x[i]), method)()
+        return _store(res, out)
 
     return f
 
@@ -286,10 +299,24 @@ def _deg2rad(x):
     return _np.deg2rad(x)
 
 
-def _power(x, n, *a, **k):
+def _power(x, n, *a, out=None, **k):
     if not _isobj(x):
-        return _np.power(x, n, *a, **k)
-    return x**n
+        return _np.power(x, n, *a, out=out, **k)
+    return _store(x**n, out)
+
+
+def _erf(x, *a, out=None, **k):
+    from scipy.special import erf as real
+
+    if not _isobj(x):
+        return real(x, *a, out=out, **k)
+    if isinstance(x, LP):
+        return ring.fn("erf", x)
+    x = _np.asarray(x, dtype=object)
+    res = _np.empty(x.shape, dtype=object)
+    for i in _np.ndindex(*x.shape):
+        res[i] = ring.fn("erf", co(x[i]))
+    return _store(res, out)
 
 
 LINALG_STUBS: dict = {}  # contract stubs for eigh / eigvalsh / eig / eigvals (callee contracts)
@@ -346,6 +373,9 @@ class NPProxy:
         o = s.__dict__["_o"]
         if n in o:
             return o[n]
+        if n == "pi" and SYM and PI_ATOM:
+            INVENTORY.add("np.pi")
+            return ring.PI()
         return getattr(_np, n)
 
 
@@ -357,6 +387,8 @@ def bind(prefix="felupe"):
     """rebind `np` in every loaded felupe module (recorded as the rebinding inventory)"""
     import felupe  # noqa: F401  (make sure everything is imported)
 
+    import scipy.special as _sp
+
     n = 0
     for name, mod in list(sys.modules.items()):
         if name == prefix or name.startswith(prefix + "."):
@@ -364,13 +396,24 @@ def bind(prefix="felupe"):
                 mod.np = P
                 _bound.append(mod)
                 n += 1
+            if getattr(mod, "erf", None) is _sp.erf:
+                mod.erf = _erf
+                _bound_erf.append(mod)
     return n
 
 
+_bound_erf: list = []
+
+
 def unbind():
+    import scipy.special as _sp
+
     for m in _bound:
         m.np = _np
+    for m in _bound_erf:
+        m.erf = _sp.erf
     _bound.clear()
+    _bound_erf.clear()
 
 
 class symbolic:
